@@ -62,6 +62,14 @@ def handleName : List String → Option String
       | .ok (b, t) =>
         "ok " ++ toHexP (b.drop pad) ++ " tbl=" ++ ";".intercalate ((t.getD []).map fun p => showName (lowerName p.1) ++ "@" ++ toString p.2)
       | .error e => "err " ++ e.toString)
+  | ["n.styled", a, om, o, rel] => do
+    let n ← parseName a
+    let omitDot ← parseBool om
+    let o ← parseOptName o
+    let rel ← parseBool rel
+    some (match toStyledText n omitDot o rel with
+      | .ok t => "ok " ++ toHexP t
+      | .error e => "err " ++ e.toString)
   | ["n.concat", a, b] => do
     let a ← parseName a; let b ← parseName b
     some (exceptName (concatenate a b))
